@@ -196,6 +196,13 @@ class User(callbacks.Plugin):
             return
         except KeyError:
             pass
+        if ircutils.isUserHostmask(newname):
+            # As in register: such a name could never be given to a command
+            # again (names that look like hostmasks are looked up as
+            # hostmasks), and nothing would keep it unique.
+            irc.errorInvalid(_('username'), newname,
+                             _('Hostmasks are not valid usernames.'),
+                             Raise=True)
         if '\n' in newname or '\r' in newname:
             irc.errorInvalid(_('username'), newname,
                              _('Usernames cannot contain line breaks.'),
